@@ -36,7 +36,7 @@ def step_of(t):
 
 
 def pipeline(rep, F, cg, fn):
-    short = fn.split('::')[-2].strip('<>') + '::' + fn.split('::')[-1]
+    short = ('Memfs' if 'memfs' in fn else 'Stdfs') + '::abs-helper'
     if fn not in F.bodies:
         rep.add('PIPELINE', 'pipeline:%s' % short, '%s exists' % fn, False, detail='anchor missing')
         return None
@@ -122,8 +122,12 @@ def run(rep, F, ctx):
     absrules.abs_first(rep, F, cg)
     rep.rule('PIPELINE', 'in Memfs::_abs and in Stdfs::abs: the empty-path test precedes expand; expand, trim_protocol and clean are each called once, in this '
              'dominance order, each on the previous result; every Ok return is dominated by clean and returns the cleaned path, the walked cwd, or mash(cwd, rest)')
-    s1 = pipeline(rep, F, cg, '<%s>::_abs' % MEMFS)
-    s2 = pipeline(rep, F, cg, '<%s>::abs' % STDFS)
+    import roles
+    R = roles.discover(F)
+    memfs_abs = R.get('memfs_abs', '<%s>::_abs' % MEMFS)
+    stdfs_abs = R.get('stdfs_abs', '<%s>::abs' % STDFS)
+    s1 = pipeline(rep, F, cg, memfs_abs)
+    s2 = pipeline(rep, F, cg, stdfs_abs)
     rep.rule('SIBLING', 'the two abs implementations call the same path helpers the same number of times (call skeleton equal modulo the cwd source)')
     ok = s1 is not None and s1 == s2
     rep.add('SIBLING', 'sibling:abs', 'Memfs::_abs and Stdfs::abs have the same path-helper call skeleton', ok, '', '' if ok else 'Memfs::_abs: %s vs Stdfs::abs: %s' % (s1, s2))
@@ -131,11 +135,11 @@ def run(rep, F, ctx):
     fn = '<%s as sys::fs::vfs::VirtualFileSystem>::abs' % MEMFS
     if fn in F.bodies:
         B = cg.body(fn)
-        ok = any((callee_of(t) or '') == '<%s>::_abs' % MEMFS for i, t in B.calls()) and B.norm_local(0).startswith('call@')
+        ok = any((callee_of(t) or '') == memfs_abs for i, t in B.calls()) and B.norm_local(0).startswith('call@')
         rep.add('SIBLING', 'sibling:Memfs::abs->_abs', 'Memfs::abs returns the result of _abs', ok, '%s:%d' % (B.file, B.line), '' if ok else 'Memfs::abs does not delegate to _abs')
     rep.rule('EFFECT', 'the transitive external-callee set of abs contains no IO API (std::fs, File, nix, unix::fs, set_current_dir, Path::{exists,metadata,...})')
-    absrules.effect(rep, F, cg, '<%s>::_abs' % MEMFS, absrules.IO_EFFECT, 'Memfs::_abs does no IO', key='effect:Memfs::_abs')
-    ext = absrules.effect(rep, F, cg, '<%s>::abs' % STDFS, absrules.IO_EFFECT, 'Stdfs::abs does no IO (it may read env::current_dir and env::var)', key='effect:Stdfs::abs')
+    absrules.effect(rep, F, cg, memfs_abs, absrules.IO_EFFECT, 'Memfs::_abs does no IO', key='effect:Memfs::_abs')
+    ext = absrules.effect(rep, F, cg, stdfs_abs, absrules.IO_EFFECT, 'Stdfs::abs does no IO (it may read env::current_dir and env::var)', key='effect:Stdfs::abs')
     rep.analysed['stdfs_abs_env_calls'] = sorted(c for c in ext if c.startswith('std::env::'))
     rep.rule('FWD', 'the PathExt method forms used by Memfs::_abs are transparent forwarders to the free functions used by Stdfs::abs')
     n = fwd.static_forwarders(rep, F, 'std::path::Path', fwd.PATHEXT_TRAIT, 'sys::fs::path::{name}', False)
